@@ -73,7 +73,7 @@ KEY_REF(GetValueRef_vsv_c8, vsv_c8, sv) KEY_REF(GetValueRef_u64, unsigned long, 
   __CPROVER_assigns(c, self->mIndex, g_cur, g_skip_failed, __verif_exc, __verif_exc_code) \
   __CPROVER_loop_invariant(c == self->mIndex && self->mSize == g_N && self->mIndex <= g_N && g_cur <= 2 * self->mIndex && (g_after_exc || g_cur == 2 * self->mIndex) && !g_key_set) \
   __CPROVER_decreases(self->mSize - c)
-#define VERIF_LOOP_CMsgPackReadObjectScope_IMsgPackReader_VisitKeys_lambda_L12C48_in_obj_visit_keys__xlambda_L12C48_in_obj_visit_keys_1 \
+#define VERIF_LOOP_CMsgPackReadObjectScope_IMsgPackReader_VisitKeys_lambda1_in_obj_visit_keys__xlambda1_in_obj_visit_keys_1 \
   __CPROVER_assigns(self->mIndex, g_cur, g_key_set, g_key_pair, g_keys_read, g_skip_failed, __verif_exc, __verif_exc_code) \
   __CPROVER_loop_invariant(self->mSize == g_N && self->mIndex <= g_N && g_cur == 2 * self->mIndex && !g_key_set && g_keys_read == self->mIndex && __verif_exc == 0) \
   __CPROVER_decreases(self->mSize - self->mIndex)
